@@ -27,6 +27,39 @@ theorem runMG_of_runM (cfg : Cfg) (buf : Bytes) : ∀ (l : List (Nat × Nat)) (m
 theorem filter_range_pairwise (n : Nat) (f : Nat → Bool) : ((List.range n).filter f).Pairwise (· < ·) :=
   List.Pairwise.sublist List.filter_sublist List.pairwise_lt_range
 
+/-- a finished run of stage 2 over the index buffers of a message stage 1 accepted: the tape holds the ghost -/
+theorem run_wf (cfg : Cfg) (nd : Bool) (msg : Bytes) (idx : Array Nat) (m' m : M) (g : Ghost) (hsz : SizeOK msg)
+    (hs1 : stage1 nd msg = some idx) (hg : runMG cfg msg M.init {} (pairsOf (rounds msg idx)) = some (m', g))
+    (h : m'.finish = some m) :
+    (WalkLayout.OkRoots (pjOf m msg) g.roots 0 ∧ (∀ v ∈ g.roots, WalkLayout.Tight v) ∧
+      (cfg.copyStrings = true → ∀ v ∈ g.roots, CopyIndep.Copied (pjOf m msg) v)) ∧
+    m.tape.size ≤ 3 * msg.size + 2 ∧ m.strings.size ≤ msg.size := by
+  have sf := (scanFacts nd msg).stage1_iff idx
+  obtain ⟨hidx, _, hne, _, _, _⟩ := sf.mp hs1
+  have hidx' : idx = (indices nd msg).toArray := by
+    apply Array.ext'
+    simpa using hidx
+  have hpk : PeekOK msg (indices nd msg) (pairsOf (rounds msg idx)) := by
+    rw [hidx']
+    exact roundsFacts.peekOK msg (emit nd msg)
+  have hlen : (pairsOf (rounds msg idx)).length = (indices nd msg).length := by
+    rw [← hpk.fst, List.length_map]
+  have hle : (indices nd msg).length ≤ msg.size := by
+    unfold indices
+    exact Nat.le_trans (List.length_filter_le _ _) (by simp)
+  have hL : (pairsOf (rounds msg idx)).length < 2^50 := by
+    unfold SizeOK at hsz; omega
+  have hnel : pairsOf (rounds msg idx) ≠ [] := by
+    intro e
+    rw [e] at hlen
+    exact hne (List.eq_nil_of_length_eq_zero hlen.symm)
+  have hsizes := Stage2WF.stage2_sizes_peekOK cfg msg (indices nd msg) _ m' m g hsz hL hnel hpk
+    (filter_range_pairwise _ _) hg h
+  refine ⟨Stage2WF.stage2_wf_peekOK cfg msg (indices nd msg) _ m' m g hsz hL hnel hpk
+    (filter_range_pairwise _ _) hg h, ?_, hsizes.2⟩
+  have := hsizes.1
+  omega
+
 /-- What a successful run of the two stages on a (trimmed) message gives. -/
 theorem parseMsg_wf (cfg : Cfg) (nd : Bool) (msg : Bytes) (m : M) (hsz : SizeOK msg)
     (h : parseMsg cfg nd msg = some m) :
@@ -46,31 +79,8 @@ theorem parseMsg_wf (cfg : Cfg) (nd : Bool) (msg : Bytes) (m : M) (hsz : SizeOK 
       rw [hr] at h
       simp only [] at h
       obtain ⟨g, hg⟩ := runMG_of_runM cfg msg _ M.init {} m' hr
-      have sf := (scanFacts nd msg).stage1_iff idx
-      obtain ⟨hidx, _, hne, _, _, _⟩ := sf.mp hs1
-      have hidx' : idx = (indices nd msg).toArray := by
-        apply Array.ext'
-        simpa using hidx
-      have hpk : PeekOK msg (indices nd msg) (pairsOf (rounds msg idx)) := by
-        rw [hidx']
-        exact roundsFacts.peekOK msg (emit nd msg)
-      have hlen : (pairsOf (rounds msg idx)).length = (indices nd msg).length := by
-        rw [← hpk.fst, List.length_map]
-      have hle : (indices nd msg).length ≤ msg.size := by
-        unfold indices
-        exact Nat.le_trans (List.length_filter_le _ _) (by simp)
-      have hL : (pairsOf (rounds msg idx)).length < 2^50 := by
-        unfold SizeOK at hsz; omega
-      have hnel : pairsOf (rounds msg idx) ≠ [] := by
-        intro e
-        rw [e] at hlen
-        exact hne (List.eq_nil_of_length_eq_zero hlen.symm)
-      have hsizes := Stage2WF.stage2_sizes_peekOK cfg msg (indices nd msg) _ m' m g hsz hL hnel hpk
-        (filter_range_pairwise _ _) hg h
-      refine ⟨⟨g.roots, Stage2WF.stage2_wf_peekOK cfg msg (indices nd msg) _ m' m g hsz hL hnel hpk
-        (filter_range_pairwise _ _) hg h⟩, ?_, hsizes.2⟩
-      have := hsizes.1
-      omega
+      obtain ⟨h1, h2⟩ := run_wf cfg nd msg idx m' m g hsz hs1 hg h
+      exact ⟨⟨g.roots, h1⟩, h2⟩
 
 /-- **Every successful parse returns a well-formed tape holding a located document** (C17, C16, C02). -/
 theorem parse_wf (cfg : Cfg) (nd : Bool) (input : Bytes) (pj : PJ) (hsz : SizeOK (trimSpace input))
